@@ -34,6 +34,12 @@ def families(tier: str) -> list[dict]:
         dict(model='mlp2nb', decay=1.0, accum=2, in_hook=False),
         dict(model='mlp3', decay=0.5, accum=1, in_hook=True,
              grad_scaler=8.0),
+        # dynamic loss scaling: the scale differs between the micro-batches
+        # of one accumulation window and between iterations
+        dict(model='mlp2', decay=0.8, accum=2, in_hook=True,
+             grad_scaler='dyn4'),
+        dict(model='mlp3', decay=0.8, accum=3, in_hook=False,
+             grad_scaler='dyn16', F=2, I=2),
         dict(model='conv', decay=0.9, accum=1, in_hook=False,
              grad_scaler=1024.0, factor_dtype='float64'),
         dict(model='mlp2', decay=0.9, accum=2, in_hook=True,
